@@ -19,7 +19,9 @@ RULE = (
     "per-threshold alphabet of 14-17 operations (append of every size in {0,1,lim-1,lim,lim+1} for "
     "lim=8192 and lim=overflow; peek 0 / 1 / len / len+7; skip 1 / half / all; get-with-skip half; file view) "
     "for overflow in {0,1,2,8191,8192,8193,20000}, plus seeded random histories of length <= 60 over the "
-    "wider argument space, plus the read-only-buffer grid; each history is executed on the real buffer in "
+    "wider argument space, plus the read-only-buffer grid, plus buffers of different threads (four real threads under "
+    "a 1 us switch interval; two or three Sim threads under every single pre-emption at a line of buffers.py), plus "
+    "temporary files that fail (disk full, cannot be created); each history is executed on the real buffer in "
     "lock-step with a bytearray FIFO and judged after every operation. distinct = (overflow, length, "
     "multiset of operation kinds, sequence of representations visited) for enumerated histories, "
     "(overflow, length bucket, set of kinds, representations) for random ones, and the parameter tuple "
